@@ -551,8 +551,8 @@ theorem bundle_refines_partial_unrequired {N : NumOps} (ρ : ExtOracle N) (hρ :
   have hs0 : Sem.HeapU.SRel (Sem.HeapU.VQ Sem.HeapU.Cx.none) Sem.HeapU.Cx.none Sem.HeapU.initRel σ0 σ0 :=
     Sem.HeapU.SRel.init (Sem.HeapU.VQ Sem.HeapU.Cx.none) externs trivial
   have hs := (hs0.extLeft hextB).extRight hextR
-  have he : Sem.HeapU.EnvOK (Sem.HeapU.initRel (N := N)) (topDead I.M) envB envR := by
-    refine ⟨by rw [henvB.1, hvaR]; exact .nil, ?_⟩
+  have he : Sem.HeapU.EnvOK Sem.HeapU.Cx.none (Sem.HeapU.initRel (N := N)) (topDead I.M) envB envR := by
+    refine ⟨by rw [henvB.1, hvaR]; exact .nil, .ofNoWat ?_ (by intro m h; simp [topDead] at h)⟩
     intro nm hnm
     rw [henvB.2 nm hnm, hlocR]
     have h1 : ¬ "__ref_require" = nm := fun e => hnm (by simp [topDead, ← e])
